@@ -21,7 +21,10 @@ dump() gives the reference list for the field, everything outside the field byte
 element, one paragraph, same field names; ValueError on leaving only for an empty list / trailing comment
 and then the document is byte-identical.  Diagnostics (drift): the exact text written for the field, the
 exception raised for remove/replace of an absent value and for a double append_newline.
-Unspecified (not generated): new values that are not a single item of the interpretation (blanks in a
+Unspecified: leaving the with-block with an EMPTY list (the code refuses with ValueError, except that after
+append_separator it writes ", " and with reformat_when_finished a field without content that the list view
+cannot read any more -- reproduced by the model with 3 calls, reported, outside the statement's edits): only
+the document level is checked.  Not generated: empty list fields ("F:\\n": the views assert content), new values that are not a single item of the interpretation (blanks in a
 space list, commas, leading '#', newlines, empty string); append_separator on a space list; sort.
 """
 import json
@@ -171,8 +174,9 @@ def parse(text):
     return parse_deb822_file(text.splitlines(keepends=True))
 
 
-def read_field(text, mode, field):
-    """fresh parse: (value list of the field or None, document-level observation)"""
+def read_field(text, mode, field, want_list=True):
+    """fresh parse: (value list of the field or None, field names | message).  With want_list=False
+    only the document level is looked at (the list is returned as [])"""
     try:
         f = parse(text)
         if f.find_first_error_element() is not None:
@@ -181,6 +185,8 @@ def read_field(text, mode, field):
         if len(paras) != 1:
             return None, "%d paragraphs in a fresh parse" % len(paras)
         names = list(paras[0].keys())
+        if not want_list:
+            return [], names
         vals = list(paras[0].as_interpreted_dict_view(interp_of(mode))[field])
         return vals, names
     except Exception as e:      # observation, not a harness failure
@@ -366,7 +372,9 @@ def run_case(ctx, case, conc, drift=None):
     mid = around(conc, after)
     if mid is None:
         return "%s: text outside the field changed: %r -> %r" % (where, text, after)
-    got, names = read_field(after, mode, conc.field)
+    # writing an EMPTY list is unspecified (ListViewImpl!EmptyWrite): only the document level is looked at
+    empty_write = r == "ok" and not expv
+    got, names = read_field(after, mode, conc.field, want_list=not empty_write)
     if got is None:
         return "%s: %s; document %r" % (where, names, after)
     names0 = read_field(text, mode, conc.field)[1]
@@ -374,7 +382,7 @@ def run_case(ctx, case, conc, drift=None):
         return "%s: field names %r -> %r" % (where, names0, names)
     if got != expv:
         return "%s: the field re-parses to %r, reference list %r; field text %r" % (where, got, expv, mid)
-    if drift is not None and r == "ok":
+    if drift is not None and r == "ok" and not empty_write:
         if case["cres"] == "nowrite" and after != text:
             drift("%s: model writes nothing, text changed to %r" % (where, mid))
         elif case["cres"] == "ok" and shape(mid, conc) != model_shape(case["out"]):
@@ -600,6 +608,11 @@ def record_trace(rng, mode, nwords, nsessions, nops, script=None):
         r = s.leave()
         after = s.dump()
         got, names = read_field(after, mode, conc.field)
+        readable = "ok"
+        if got is None and names.startswith("fresh parse raised"):
+            # the list view cannot read what was written: only acceptable for an empty list (TLC decides)
+            got, names = read_field(after, mode, conc.field, want_list=False)
+            readable = "failed"
         doc = "ok"
         if around(conc, after) is None:
             doc = "text outside the field changed"
@@ -611,10 +624,10 @@ def record_trace(rng, mode, nwords, nsessions, nops, script=None):
             doc = "ValueError on leaving but the document changed"
         elif not calls and after != cur:
             doc = "open+close without change altered the document"
-        events.append({"op": "close", "v": [], "w": [], "i": 0, "res": r,
+        events.append({"op": "close", "v": [], "w": [], "i": 0, "res": r, "read": readable,
                        "obs": [code_of(x) for x in got] if got is not None else [], "doc": doc})
         script_out.append({"idiom": s.idiom, "calls": calls})
-        if doc != "ok":
+        if doc != "ok" or readable != "ok":
             break
         cur = after
     return {"mode": mode, "lay": lay, "events": events,
@@ -675,7 +688,7 @@ def run(ctx):
     quick = ctx.tier == "quick"
     rng = ctx.rng
     ctx.assumptions += [
-        "layout tokens: word, comma, blanks, newline, continuation blank, comment line; bounds quick: <=3 words/7 tokens/1 comment line x 2 calls; thorough: <=4 words/9 tokens/2 comment lines x 2 calls (the final newline counts as a token); replayed cases: a 1/32 (quick) or 1/4 (thorough) slice of the layouts <=3 words/7 tokens x 2 calls chosen by the seed, plus every layout with a comment line inside a value",
+        "layout tokens: word, comma, blanks, newline, continuation blank, comment line; bounds quick: <=3 words/7 tokens/1 comment line x 2 calls; thorough: <=4 words/9 tokens/2 comment lines x 2 calls and <=2 words/6 tokens x 3 calls (the final newline counts as a token); replayed cases: a 1/32 (quick) or 1/4 (thorough) slice of the layouts <=3 words/7 tokens x 2 calls chosen by the seed, plus every layout with a comment line inside a value",
         "new values are single items of the interpretation (no blanks in a space list, no comma, no leading '#', no newline); append_separator on a space list and sort are not exercised",
         "removing the only value: modelled as the code does (ValueError on leaving the with-block, document untouched)",
         "remove/replace of an absent value and append_newline after a newline: only 'the list does not change' is a verdict, the exception is a diagnostic",
@@ -686,7 +699,7 @@ def run(ctx):
 
     def design_run():
         try:
-            cfgs = ["MC_ListViewImpl_quick.cfg"] if quick else ["MC_ListViewImpl.cfg"]
+            cfgs = ["MC_ListViewImpl_quick.cfg"] if quick else ["MC_ListViewImpl.cfg", "MC_ListViewImpl_deep.cfg"]
             design["runs"] = [ctx.tlc_must_hold("ListViewImpl", c, workers=6 if quick else 12) for c in cfgs]
             if not quick:
                 neg = {}
@@ -776,7 +789,7 @@ def run(ctx):
     if "error" in design:
         raise design["error"]
     ctx.extra["constants"] = {
-        "design": "MaxW=3 MaxT=7 MaxC=1 MaxEdits=2" if quick else "MaxW=4 MaxT=9 MaxC=2 MaxEdits=2",
+        "design": "MaxW=3 MaxT=7 MaxC=1 MaxEdits=2" if quick else "MaxW=4 MaxT=9 MaxC=2 MaxEdits=2; MaxW=2 MaxT=6 MaxC=1 MaxEdits=3",
         "modes": ["sp", "cm"], "Dups": True, "Extras": True,
         "emission": "MaxW=3 MaxT=7 MaxC=1 MaxEdits=2 slice %d/32 + inner-comment layouts" % (ctx.seed % 32) if quick
                     else "MaxW=3 MaxT=7 MaxC=1 MaxEdits=2 slice %d/4; MaxW=3 MaxT=8 MaxC=2 MaxEdits=1 slice %d/2" % (ctx.seed % 4, ctx.seed % 2),
